@@ -284,7 +284,8 @@ def gen_cases(rng, tier):
             pl = rng.choice(top)
             c = rand_bytes(rng, rng.randint(1, 20), avoid=(0,))
             n = len(c)
-            lv = rng.choice((n - 1, n + 1, n + 2, max(0, n - 3), n + 40, 0, 99999, 2048, 4294967296 + n))
+            # Length texts stay within int32: beyond it fast_atoi overflows a signed int (C03-fast-atoi-ub)
+            lv = rng.choice((n - 1, n + 1, n + 2, max(0, n - 3), n + 40, 0, 99999, 2048, 2147483647))
             # (texts with characters below '0', e.g. "-1", are kept out: fast_atoi<unsigned> shifts a
             #  negative int there, which the UBSan build of the harness turns into a crash)
             lvb = rng.choice((str(lv).encode(), str(lv).encode(), b"abc", b"", b"0%d" % n, b"%dx" % n))
